@@ -26,6 +26,12 @@ func (c Cfg) parseKey(raw []byte) (uint64, error) {
 			return 0, err
 		}
 		return c.KeyNat(v.A), nil
+	case "skc":
+		var v SKC
+		if err := customUnmarshal(raw, &v); err != nil {
+			return 0, err
+		}
+		return c.KeyNat(v), nil
 	case "vk", "u64", "uint":
 		var v uint64
 		err := json.Unmarshal(raw, &v)
